@@ -19,11 +19,12 @@ RULE = (
     "arbitrary: plain and source = all strings <= n over {x,y,<,' ',>} (source also None), all ordered span tuples of "
     "<= 2 spans (empty, touching, nested, overlapping, duplicate, unsorted; 3 spans for |plain| <= 3 in thorough) x 3 modes "
     "x 2 engines; forced: plain 'wxyz' with <= 2 insertions of tags/whitespace at every gap; trees: all element trees with "
-    "<= 2 elements over 4 letters. distinct = distinct (plain, source, spans); non-trivial = >= 1 non-empty span and a "
+    "<= 2 elements over 4 letters; markers: 6 families of before/after strings with regex/format metacharacters x all forced sources "
+    "x all <= 2-span tuples x 3 modes. distinct = distinct (plain, source, spans); non-trivial = >= 1 non-empty span and a "
     "source different from plain, or >= 2 spans."
 )
 ASSUMPTIONS = [
-    "before/after strings are sentinels that occur in no text and contain no regex replacement escapes",
+    "before/after strings occur in no text; besides plain sentinels, marker pairs with backslashes, group references, '$', '&', '%' and braces are used",
     "tiny alphabets: longer texts or other characters are not covered",
 ]
 
@@ -37,20 +38,37 @@ def bounds(tier):
     return {"alphabet": ALPHA, "plain_max": NMAX[tier][0], "source_max": NMAX[tier][1], "spans_per_call": 2, "three_span_sets": tier == "thorough", "modes": MODES, "engines": ["dmp", "difflib"], "forced_inserts": INSERTS}
 
 
-def check(plain, source, ss, mode, dmp):
+HOSTILE_MARKS = [
+    [("[\\n", "]"), ("{\\n", "}")],  # backslash escapes
+    [("[", "\\1]"), ("{", "\\1}")],  # group references
+    [("[\\", "]"), ("{\\", "}")],  # trailing backslash
+    [("[\\g<1>", "]"), ("{\\g<0>", "}")],
+    [("[$1", "]"), ("{&", "}")],
+    [("[%s", "]"), ("{{}", "}")],
+]
+
+
+def check(plain, source, ss, mode, dmp, marks=None):
     k = len(ss)
     target = plain if not source else source
     try:
-        out = annot.annotate(plain, ss, source, mode, dmp)
+        out = annot.annotate(plain, ss, source, mode, dmp, marks)
     except Exception as e:  # noqa: BLE001
         return [(f"raise-{mode}", short_exc(e))]
-    if not isinstance(out, str) or annot.strip_sentinels(out, k) != target:
-        return [(f"strip-{mode}", f"output {out!r} does not strip to the target {target!r}")]
+    if marks is None:
+        stripped = annot.strip_sentinels(out, k) if isinstance(out, str) else None
+    else:
+        stripped = out
+        for b, a in marks[:k]:
+            stripped = stripped.replace(b, "").replace(a, "")
+    if not isinstance(out, str) or stripped != target:
+        return [(f"strip-{mode}", f"output {out!r} does not strip to the target {target!r}" + (f" (markers {marks[:k]})" if marks else ""))]
     return []
 
 
 def replay(case):
-    res = check(case["plain"], case["source"], [tuple(s) for s in case["spans"]], case["mode"], case["dmp"])
+    marks = [tuple(m) for m in case["marks"]] if case.get("marks") else None
+    res = check(case["plain"], case["source"], [tuple(s) for s in case["spans"]], case["mode"], case["dmp"], marks)
     return [{"msg": f"{lab}: {det} :: {case}", "label": lab} for lab, det in res]
 
 
@@ -65,6 +83,8 @@ def shards(tier, seed):
             out.append({"part": "forced", "plain": plain, "r": r, "n": 8, "kmax": 2 if tier == "quick" else 3})
     for r in range(8):
         out.append({"part": "trees", "r": r, "n": 8, "max_el": 2})
+    for mi in range(len(HOSTILE_MARKS)):
+        out.append({"part": "markers", "mi": mi})
     return out
 
 
@@ -75,7 +95,7 @@ def run_shard(sh):
     def run(plain, source, ss, modes, engines):
         key = h64([plain, source, ss])
         st.states.add(key)
-        nt = (len(ss) >= 2) or (any(s < e for s, e in ss) and bool(source) and source != plain)
+        nt = (len(ss) >= 2) or (any(s < e for s, e in ss) and bool(source) and source != plain) or (not ss and bool(source) and source != plain)
         if nt:
             st.nontrivial.add(key)
             if not st.samples:
@@ -92,12 +112,34 @@ def run_shard(sh):
                     case = {"plain": plain, "source": source, "spans": [list(s) for s in ss], "mode": mode, "dmp": dmp}
                     st.violation(case, f"{lab}: {det} :: plain={plain!r} source={source!r} spans={ss} engine={'dmp' if dmp else 'difflib'}", label=f"{sh['part']}-{lab}")
 
+    if sh["part"] == "markers":
+        # before/after strings with characters that are special in regex replacement templates / format strings
+        marks = HOSTILE_MARKS[sh["mi"]]
+        plain = "wxyz"
+        sets = list(annot.span_sets(len(plain), 2, allow_empty=False))
+        sources = [None] + [src for src, _ in annot.forced_sources(plain, ["<i>", "</i>", "\n"], 2)]
+        for source in sources:
+            for ss in sets:
+                key = h64([plain, source, ss, sh["mi"]])
+                st.states.add(key)
+                st.nontrivial.add(key)
+                for mode in MODES:
+                    st.evaluations += 1
+                    st.traces += 1
+                    st.transitions += 1
+                    p["evaluations"] += 1
+                    res = check(plain, source, ss, mode, True, marks)
+                    st.outcomes.add(h64([r[0] for r in res]) if res else 0)
+                    for lab, det in res:
+                        case = {"plain": plain, "source": source, "spans": [list(x) for x in ss], "mode": mode, "dmp": True, "marks": [list(m) for m in marks]}
+                        st.violation(case, f"{lab}: {det} :: plain={plain!r} source={source!r} spans={ss}", label=f"markers-{lab}")
+        return st
     if sh["part"] == "arbitrary":
         plains = annot.strings(ALPHA, sh["pn"])[sh["lo"] : sh["hi"]]
         sources = [None] + annot.strings(ALPHA, sh["sn"])
         for plain in plains:
             n = len(plain)
-            sets = list(annot.span_sets(n, 2))
+            sets = [()] + list(annot.span_sets(n, 2))  # () = no annotation at all
             if sh["k3"] and n <= 3:
                 sets += list(itertools.product(annot.spans_of(n), repeat=3))
             for source in sources:
